@@ -71,6 +71,10 @@ def check_g(case, rec=None):
     from ImageD11 import transform, gv_general
     wv, wedge, chi = case["wv"], case["wedge"], case["chi"]
     g = make_g(case)
+    # batch sizes: usually 400, sometimes 1, 2, 3 (a 3 x 3 block), 4 or 7 vectors
+    nsub = [400, 400, 3, 400, 1, 2, 400, 3, 4, 7][case["seed"] % 10]
+    if nsub < g.shape[1]:
+        g = np.ascontiguousarray(g[:, np.random.RandomState(case["seed"] % 9973).permutation(g.shape[1])[:nsub]])
     n = g.shape[1]
     fails = []
     ok, r = guard(transform.uncompute_g_vectors, g.copy(), wv, wedge, chi)
